@@ -507,41 +507,46 @@ def check_array_grid(run: common.Run, drv: common.Driver, rng: random.Random, sc
                     run.evaluated()
                     run.nontrivial((pid, "arr", be, kname, n, off, cap, ext))
                     run.count(f"array:{'be' if be else 'le'}:{'batch' if (not be and n in (8, 16, 32, 64) and kname != 'bool') else 'loop'}")
-                    vals = [rng.choice(basis_values(n, signed, rng, 1)) if kname != "bool" else rng.randint(0, 1) for _ in range(cap)]
-                    cells = b"".join((x & ((1 << (8 * size)) - 1)).to_bytes(size, "big" if be else "little") for x in vals)
-                    desc = BpArrayDescriptor(ext, cap, BpType(FLAGS[kname], n, size, None, None, 0))
-                    nb = (16 if ext else 0) + cap * n
-                    wlen = (off + nb + 7) // 8
-                    cb, cp = _buf(cells)
-                    wb, wp = _buf(bytes(wlen))
-                    ctx = C.ProcCtx(True, off, wp)
-                    fn(ctypes.byref(desc), ctypes.byref(ctx), cp)
-                    wire, wok = _unbuf(wb, wlen)
-                    W = 0
-                    pos = off
-                    if ext:
-                        W |= cap << pos
-                        pos += 16
-                    for x in vals:
-                        W |= (x & ((1 << n) - 1)) << pos
-                        pos += n
-                    exp = W.to_bytes(wlen, "little")
-                    rep = {"input": {"call": "BpEndecodeArray", "be_build": be, "kind": kname, "nbits": n, "size": size, "cap": cap,
-                                     "extensible": ext, "bit_offset": off, "values": vals}}
-                    if wire != exp or not wok or ctx.i != off + nb:
-                        run.violation(dict(rep, kind="impl-vs-spec", observed_impl={"wire": wire.hex(), "guards": wok, "i": ctx.i},
-                                           expected_by_spec={"wire": exp.hex(), "i": off + nb}))
-                        continue
-                    if be and signed and n not in (8, 16, 32, 64):
-                        continue  # sign fix-up reads native integers: not emulable on this host (DESIGN.md C06)
-                    cb2, cp2 = _buf(bytes(len(cells)))
-                    wb2, wp2 = _buf(exp)
-                    ctx2 = C.ProcCtx(False, off, wp2)
-                    fn(ctypes.byref(desc), ctypes.byref(ctx2), cp2)
-                    got, cok = _unbuf(cb2, len(cells))
-                    if got != cells or not cok or ctx2.i != off + nb:
-                        run.violation(dict(rep, kind="impl-vs-spec", observed_impl={"cells_after_decode": got.hex(), "guards": cok, "i": ctx2.i},
-                                           expected_by_spec={"cells_after_decode": cells.hex(), "i": off + nb}))
+                    rnd = [rng.choice(basis_values(n, signed, rng, 1)) if kname != "bool" else rng.randint(0, 1) for _ in range(cap)]
+                    top = 1 if kname == "bool" else ((1 << n) - 1 if not signed else -(1 << (n - 1)))
+                    # besides random cells: everything zero but the LAST element (a decoder that looks at the first bytes only
+                    # and skips the rest would pass with uniformly filled arrays), and everything zero but the first
+                    patterns = [rnd] + ([[0] * (cap - 1) + [top], [top] + [0] * (cap - 1)] if cap > 1 else [])
+                    for vals in patterns:
+                        cells = b"".join((x & ((1 << (8 * size)) - 1)).to_bytes(size, "big" if be else "little") for x in vals)
+                        desc = BpArrayDescriptor(ext, cap, BpType(FLAGS[kname], n, size, None, None, 0))
+                        nb = (16 if ext else 0) + cap * n
+                        wlen = (off + nb + 7) // 8
+                        cb, cp = _buf(cells)
+                        wb, wp = _buf(bytes(wlen))
+                        ctx = C.ProcCtx(True, off, wp)
+                        fn(ctypes.byref(desc), ctypes.byref(ctx), cp)
+                        wire, wok = _unbuf(wb, wlen)
+                        W = 0
+                        pos = off
+                        if ext:
+                            W |= cap << pos
+                            pos += 16
+                        for x in vals:
+                            W |= (x & ((1 << n) - 1)) << pos
+                            pos += n
+                        exp = W.to_bytes(wlen, "little")
+                        rep = {"input": {"call": "BpEndecodeArray", "be_build": be, "kind": kname, "nbits": n, "size": size, "cap": cap,
+                                         "extensible": ext, "bit_offset": off, "values": vals}}
+                        if wire != exp or not wok or ctx.i != off + nb:
+                            run.violation(dict(rep, kind="impl-vs-spec", observed_impl={"wire": wire.hex(), "guards": wok, "i": ctx.i},
+                                               expected_by_spec={"wire": exp.hex(), "i": off + nb}))
+                            continue
+                        if be and signed and n not in (8, 16, 32, 64):
+                            continue  # sign fix-up reads native integers: not emulable on this host (DESIGN.md C06)
+                        cb2, cp2 = _buf(bytes(len(cells)))
+                        wb2, wp2 = _buf(exp)
+                        ctx2 = C.ProcCtx(False, off, wp2)
+                        fn(ctypes.byref(desc), ctypes.byref(ctx2), cp2)
+                        got, cok = _unbuf(cb2, len(cells))
+                        if got != cells or not cok or ctx2.i != off + nb:
+                            run.violation(dict(rep, kind="impl-vs-spec", observed_impl={"cells_after_decode": got.hex(), "guards": cok, "i": ctx2.i},
+                                               expected_by_spec={"cells_after_decode": cells.hex(), "i": off + nb}))
 
 
 # ===================================================================== big-endian detection (C06_detect)
